@@ -1,30 +1,67 @@
 /-
   Vocabulary shared by the Spec, the Model and the engine of C01's mechanism part:
-  the abstract value domain and the syntax of condition trees / the small statement language
-  in which conditions and assignments are placed.  No semantics here.
+  the number structure, the abstract value domain and the syntax of expression trees (conditions, arithmetic,
+  unary minus, length, concatenation) / the small statement language in which they are placed.  No semantics here.
 -/
 namespace GLua.Compile
 
-/-- the abstract value domain: only nil/true/false, truthiness, literals and comparison oracles are visible.
-    A comparison answering `none` raises an error ("attempt to compare …"). -/
-structure Dom (V : Type) where
+/-- the six binary arithmetic operators of Lua 5.1 (§2.5.1). -/
+inductive ArithOp where
+  | add | sub | mul | div | mod | pow
+deriving DecidableEq, Repr
+
+/-- The NUMBER STRUCTURE: the carrier of Lua numbers (IEEE doubles in the implementation, arbitrary here) with the
+    operations the compiler's constant folding and the VM's arithmetic both use (`+ - * /`, `luaModulo`,
+    `math.Pow`, unary minus), the value of an integer numeral as written (`parseNumber`), and the NaN test
+    (`ConstIndex` compares constants with Go's `==`, so a NaN constant is never found again).
+    Nothing is assumed about the operations: they are uninterpreted total functions. -/
+class NumStruct where
+  N : Type
+  deq : DecidableEq N
+  add : N → N → N
+  sub : N → N → N
+  mul : N → N → N
+  div : N → N → N
+  mod : N → N → N
+  pow : N → N → N
+  neg : N → N
+  lit : Int → N
+  isNaN : N → Bool
+
+instance [ns : NumStruct] : DecidableEq ns.N := ns.deq
+
+def NumStruct.apply [ns : NumStruct] : ArithOp → ns.N → ns.N → ns.N
+  | .add => ns.add | .sub => ns.sub | .mul => ns.mul
+  | .div => ns.div | .mod => ns.mod | .pow => ns.pow
+
+/-- the abstract value domain: only nil/true/false, truthiness, constants and the operation oracles are visible.
+    An operation answering `none` raises an error ("attempt to compare …", "attempt to perform arithmetic on …",
+    "attempt to concatenate …", "attempt to get length of …"). -/
+structure Dom [NumStruct] (V : Type) where
   nilV : V
   trueV : V
   falseV : V
   truthy : V → Bool
-  num : Int → V
+  num : NumStruct.N → V                       -- the value that IS the number x
   str : String → V
   eq : V → V → Option Bool
   lt : V → V → Option Bool
   le : V → V → Option Bool
+  arith : ArithOp → V → V → Option V          -- §2.5.1 (with the string→number coercion of §2.2.1 inside)
+  unm : V → Option V                          -- unary minus
+  len : V → Option V                          -- §2.5.5
+  concat : V → V → Option V                   -- §2.5.4
 
-/-- what Lua 5.1 §2.4.4 says about truthiness: only nil and false are false. -/
-structure Dom.Lawful {V} (d : Dom V) : Prop where
+/-- what the manual says about the values: only nil and false are false (§2.4.4); arithmetic on two NUMBERS is the
+    number structure's operation and never raises (§2.5.1). -/
+structure Dom.Lawful [NumStruct] {V} (d : Dom V) : Prop where
   nil_falsy : d.truthy d.nilV = false
   false_falsy : d.truthy d.falseV = false
   true_truthy : d.truthy d.trueV = true
   num_truthy : ∀ n, d.truthy (d.num n) = true
   str_truthy : ∀ s, d.truthy (d.str s) = true
+  arith_num : ∀ op a b, d.arith op (d.num a) (d.num b) = some (d.num (NumStruct.apply op a b))
+  unm_num : ∀ a, d.unm (d.num a) = some (d.num (NumStruct.neg a))
 
 inductive RelOp where
   | lt | gt | le | ge | eq | ne
@@ -40,6 +77,10 @@ inductive Cond where
   | and (l r : Cond)
   | or (l r : Cond)
   | rel (op : RelOp) (l r : Cond)
+  | arith (op : ArithOp) (l r : Cond)   -- l + r, l - r, l * r, l / r, l % r, l ^ r
+  | unm (c : Cond)                      -- -c
+  | len (c : Cond)                      -- #c
+  | concat (l r : Cond)                 -- l .. r   (right associative: a .. b .. c = concat a (concat b c))
 deriving Repr, DecidableEq
 
 def Cond.isLogical : Cond → Bool
@@ -73,3 +114,4 @@ def Block.ofList : List Stmt → Block
   | s :: r => .cons s (Block.ofList r)
 
 end GLua.Compile
+
